@@ -1,0 +1,29 @@
+//go:build verif
+
+// Safety-only contracts (C06) for functions that are reached only through
+// formatting (String/Error methods called by fmt), through interfaces, or not at
+// all by the rest of the verified code, so that their panic sites are obligations
+// too. Comment-only file.
+
+package bcl
+
+//@ group C06
+//@ func (opcode).String
+//@ func (tokenType).String
+//@ func (typecode).String
+//@ func (token).String
+//@ func (*runtimeErr).Error
+//@ func (errCombined).Error
+//@ func (errInvalidType).Error
+//@ func (errInvalidValue).Error
+//@ func (fieldMappingErr).Error
+//@ func (SliceBinding).binding
+//@ func (StructBinding).binding
+//@ func (*Block).key
+//@ func (*lineCalc).lineAt
+//@ func isTruthy
+//
+// the generated name tables: offsets are non-decreasing and stay inside the name string
+//@ global opcode_name_table: forall i int :: 0 <= i && i < 31 ==> _opcode_index[i] <= _opcode_index[i+1] && int(_opcode_index[i+1]) <= len(_opcode_name)
+//@ global token_name_table: forall i int :: 0 <= i && i + 1 < len(_tokenType_index) ==> _tokenType_index[i] <= _tokenType_index[i+1] && int(_tokenType_index[i+1]) <= len(_tokenType_name)
+//@ global typecode_name_table: forall i int :: 0 <= i && i < 5 ==> _typecode_index[i] <= _typecode_index[i+1] && int(_typecode_index[i+1]) <= len(_typecode_name)
